@@ -70,6 +70,10 @@ def gen_workspace(rng, depth=None, force=None):
             rand_fixture(rng, cf, name, params=(name,), multiline=rng.random() < 0.15)
         elif mode in ("star", "star_abs", "explicit", "explicit_as", "plugins"):
             mod = "fx_l%d" % lvl
+            if mode in ("star", "explicit", "explicit_as") and rng.random() < 0.2:
+                # a project-local module that happens to carry a standard-library name, imported RELATIVELY
+                # (`from .logging import *`): it is the local module, never the standard library's
+                mod = rng.choice(["logging", "random", "http", "types"])
             mf = PyFile()
             rand_fixture(rng, mf, name)
             if rng.random() < 0.4:
